@@ -603,9 +603,10 @@ func runC15(c *tcase, trk *tracker) {
 	trk.mu.Lock()
 	peak := trk.peak - base
 	trk.mu.Unlock()
-	// slack: the wire bytes themselves are buffered (one frame / the input cache) + a constant
+	// slack: the wire bytes themselves are buffered (one frame / the input cache), a growing buffer exists twice
+	// while it is copied (old + new, each at most the limit + 1), + a constant
 	tr.Emit(hlib.Ev{"ev": "result", "oversize": total > c.Limit || c.Kind == "ctlrecv", "failed": err != nil || rmem.isClosed(), "code1009": code1009,
-		"delivered": delivered, "peak": peak, "slack": 2*len(wire) + 4096, "total": total})
+		"delivered": delivered, "peak": peak, "slack": c.Limit + 2*len(wire) + 4096, "total": total})
 	recv.CloseAndClean(nil)
 }
 
